@@ -16,9 +16,10 @@ P = {
          "induction over card lists in Coq; differential check vs Assorter/Contest code; exact-Fraction oracle", "4 C02"),
  "C03": ("Theorem of the overstatement identity for all CVR/MVR lists, pools and phantoms on the Compare model; end-to-end correspondence with Audit.py; identity oracle in exact fractions.",
          "summation identity by induction in Coq; end-to-end differential check; exact identity oracle", "4 C03"),
- "C04": ("All-input theorems about verified checkers (sufficiency over all elimination orders, truth of assertions, possibility); every output of compute_raire_assertions is validated by them inside Coq, "
-         "plus a brute-force oracle over all n! orders on the implementation. The search algorithm itself is validated per output, not proved (DESIGN 4 table).",
-         "verified sufficiency/possibility checkers in Coq applied to every implementation output; brute-force n! oracle", "4 C04"),
+ "C04": ("All-input theorems (PC04.v) in two layers: verified checkers (sufficiency over all elimination orders, truth of assertions with exact tallies, possibility) applied inside Coq to every output of compute_raire_assertions; "
+         "and an executable model of the search itself (RaireAlgo.raire: frontier, dive, best ancestor, lower bound, de-duplication, subsumption) compared output-for-output with the implementation, about which the whole of C04 is proved for every run that does not exhaust its fuel "
+         "(non-empty output passes the checker; output empty iff no sufficient set of true assertions exists). Termination within the default fuel is checked per run, not proved. Brute-force oracle over all n! orders on the implementation.",
+         "soundness/emptiness proof of an executable model of the RAIRE search in Coq + verified checkers applied to every implementation output; output-for-output differential check; brute-force n! oracle", "4 C04"),
  "C05": ("Theorems for all samples, cut points, tails, tests, estimators and bets (PC05.v): prefix/tail/truncation clauses of the history and predictability of every estimator/bet, with no hypotheses on ranges.",
          "sequential-machine model; predictability and prefix theorems in Coq; differential check; prefix/tail oracle on the implementation", "4 C05"),
  "C06": ("Theorems on the Compare model for data range, the returned/installed bound and the style/threshold filter; correspondence through mvrs_to_data and set_p_values; range oracle.",
@@ -40,8 +41,9 @@ P = {
          "machine-invariant range proofs in Coq; differential check on grid and extreme streams; range oracle", "4 C13"),
  "C14": ("Theorems for every candidate set, duplicate-free ranking and (w,l,E) (PC14.v): audit assorter = (w-l+1)/2 of the generator's verdicts, mean/tally corollary, both RAIRE readers agree on whole files, re-tally; exhaustive correspondence over all partial rankings of <=4(5) candidates.",
          "induction on rankings in Coq; exhaustive differential check of both implementations; equality oracle", "4 C14"),
- "C15": ("Theorem that the verified `opt` equals the minimax difficulty over all sufficient sets of true assertions; every implementation output compared with it inside Coq and with a brute-force optimum. The search algorithm itself is validated per output, not proved.",
-         "verified optimum checker in Coq applied to every implementation output; brute-force optimum oracle", "4 C15"),
+ "C15": ("Theorem that the verified `opt` equals the minimax difficulty over all sufficient sets of true assertions; every implementation output compared with it inside Coq and with a brute-force optimum. About the executable model of the search (compared output-for-output with the code): "
+         "every reported difficulty is the difficulty function of the reported tallies, and the largest one is >= opt (PARTIAL: <= opt, i.e. optimality of the search itself, is established per output by the verified optimum, not proved).",
+         "verified optimum checker in Coq applied to every implementation output; partial optimality theorems about the executable search model; brute-force optimum oracle", "4 C15"),
  "C16": ("Theorems on the SampleSize model (tiling, first crossing, prefix invariance given non-anticipation, overstatement layout, interleave counts, contest maximum); correspondence with sample_size / find_sample_size / interleave_values; independent re-derivation oracle.",
          "list lemmas in Coq on top of the NNM model; differential check; independent re-construction oracle", "4 C16"),
  "C17": ("Theorems for all manifests (bijection between valid numbers and (batch, position) pairs for both vendors, phantom batch, prep_manifest totals/refusals); correspondence on real pandas frames incl. exhaustive small manifests; oracle.",
